@@ -159,41 +159,65 @@ Proof. destruct a, b; cbn [ser_scalar]; intros H; try discriminate; try (injecti
 Lemma kis_task_neq_enum : str_eqb k_is_enum k_is_task = false.
 Proof. reflexivity. Qed.
 
+(* what wrap_dict produces *)
+Lemma wrap_dict_cases j : (marked j = false /\ wrap_dict j = JObj j) \/
+                          (marked j = true /\ wrap_dict j = JObj [(k_is_dict, JBool true); (k_items, JObj j)]).
+Proof. unfold wrap_dict. destruct (marked j); [right|left]; auto. Qed.
+
+Lemma marked_wrapper j : marked [(k_is_dict, JBool true); (k_items, JObj j)] = true.
+Proof. reflexivity. Qed.
+
+Lemma wrap_dict_inj a b : wrap_dict a = wrap_dict b -> a = b.
+Proof.
+  destruct (wrap_dict_cases a) as [[Ma ->]|[Ma ->]], (wrap_dict_cases b) as [[Mb ->]|[Mb ->]]; intros E.
+  - now injection E.
+  - injection E as ->. rewrite marked_wrapper in Ma. discriminate.
+  - injection E as <-. rewrite marked_wrapper in Mb. discriminate.
+  - now injection E.
+Qed.
+
+Lemma wrap_dict_not_enum j c m : wrap_dict j <> JObj [(k_is_enum, JBool true); (k_class, JStr c); (k_name, JStr m)].
+Proof.
+  destruct (wrap_dict_cases j) as [[Mj ->]|[Mj ->]]; intros E.
+  - injection E as ->. discriminate Mj.
+  - discriminate E.
+Qed.
+
+Lemma wrap_dict_not_task j c rest : wrap_dict j <> JObj ((k_is_task, JBool true) :: (k_class, JStr c) :: rest).
+Proof.
+  destruct (wrap_dict_cases j) as [[Mj ->]|[Mj ->]]; intros E.
+  - injection E as ->. discriminate Mj.
+  - discriminate E.
+Qed.
+
 Theorem ser_injective a : forall b, no_reserved a = true -> no_reserved b = true -> ser a = ser b -> a = b.
 Proof.
   induction a as [s|l IH|kvs IH|c fs IH] using value_ind'; intros b Ha Hb E.
   - destruct b as [s'|l'|kvs'|c' fs']; cbn [ser] in E.
     + f_equal. now apply ser_scalar_inj.
     + destruct s; discriminate.
-    + destruct s; try discriminate. cbn [ser_scalar] in E. injection E as E.
-      cbn [no_reserved] in Hb. apply andb_true_iff in Hb. destruct Hb as [Hb _]. apply andb_true_iff in Hb.
-      destruct Hb as [_ Hb]. apply negb_true_iff in Hb.
-      rewrite <- (has_key_map k_is_enum ser kvs'), <- E in Hb. discriminate.
+    + destruct s; try (destruct (wrap_dict_cases (map (fun kv => (fst kv, ser (snd kv))) kvs')) as [[_ W]|[_ W]]; rewrite W in E; discriminate E).
+      cbn [ser_scalar] in E. symmetry in E. now apply wrap_dict_not_enum in E.
     + destruct s; discriminate.
   - destruct b as [s'|l'|kvs'|c' fs']; cbn [ser] in E; try (destruct s'; discriminate); try discriminate.
-    injection E as E. f_equal. cbn [no_reserved] in Ha, Hb. revert l' Hb E.
-    induction IH as [|x l Hx Hl IHl]; intros [|y l'] Hb E; cbn [map] in E; try discriminate; [reflexivity|].
-    injection E as E1 E2. cbn [forallb] in Ha, Hb. apply andb_true_iff in Ha, Hb. destruct Ha as [A1 A2], Hb as [B1 B2].
-    f_equal; [now apply Hx|now apply IHl].
-  - destruct b as [s'|l'|kvs'|c' fs']; cbn [ser] in E; try discriminate.
-    + destruct s'; try discriminate. cbn [ser_scalar] in E. injection E as E.
-      cbn [no_reserved] in Ha. apply andb_true_iff in Ha. destruct Ha as [Ha _]. apply andb_true_iff in Ha.
-      destruct Ha as [_ Ha]. apply negb_true_iff in Ha.
-      rewrite <- (has_key_map k_is_enum ser kvs), E in Ha. discriminate.
-    + injection E as E. f_equal. cbn [no_reserved] in Ha, Hb.
-      apply andb_true_iff in Ha, Hb. destruct Ha as [_ Ha], Hb as [_ Hb]. revert kvs' Hb E.
+    + injection E as E. f_equal. cbn [no_reserved] in Ha, Hb. revert l' Hb E.
+      induction IH as [|x l Hx Hl IHl]; intros [|y l'] Hb E; cbn [map] in E; try discriminate; [reflexivity|].
+      injection E as E1 E2. cbn [forallb] in Ha, Hb. apply andb_true_iff in Ha, Hb. destruct Ha as [A1 A2], Hb as [B1 B2].
+      f_equal; [now apply Hx|now apply IHl].
+    + destruct (wrap_dict_cases (map (fun kv => (fst kv, ser (snd kv))) kvs')) as [[_ W]|[_ W]]; rewrite W in E; discriminate E.
+  - destruct b as [s'|l'|kvs'|c' fs']; cbn [ser] in E.
+    + destruct s'; try (destruct (wrap_dict_cases (map (fun kv => (fst kv, ser (snd kv))) kvs)) as [[_ W]|[_ W]]; rewrite W in E; discriminate E).
+      cbn [ser_scalar] in E. now apply wrap_dict_not_enum in E.
+    + destruct (wrap_dict_cases (map (fun kv => (fst kv, ser (snd kv))) kvs)) as [[_ W]|[_ W]]; rewrite W in E; discriminate E.
+    + apply wrap_dict_inj in E. f_equal. cbn [no_reserved] in Ha, Hb. revert kvs' Hb E.
       induction IH as [|[k x] l Hx Hl IHl]; intros [|[k' y] l'] Hb E; cbn [map] in E; try discriminate; [reflexivity|].
       cbn [fst snd] in *. injection E as E0 E1 E2. cbn [forallb snd] in Ha, Hb.
       apply andb_true_iff in Ha, Hb. destruct Ha as [A1 A2], Hb as [B1 B2].
       f_equal; [f_equal; [exact E0|now apply Hx]|now apply IHl].
-    + injection E as E. cbn [no_reserved] in Ha. apply andb_true_iff in Ha. destruct Ha as [Ha _].
-      apply andb_true_iff in Ha. destruct Ha as [Ha _]. apply negb_true_iff in Ha.
-      rewrite <- (has_key_map k_is_task ser kvs), E in Ha. discriminate.
+    + now apply wrap_dict_not_task in E.
   - destruct b as [s'|l'|kvs'|c' fs']; cbn [ser] in E; try discriminate.
     + destruct s'; discriminate.
-    + injection E as E. cbn [no_reserved] in Hb. apply andb_true_iff in Hb. destruct Hb as [Hb _].
-      apply andb_true_iff in Hb. destruct Hb as [Hb _]. apply negb_true_iff in Hb.
-      rewrite <- (has_key_map k_is_task ser kvs'), <- E in Hb. discriminate.
+    + symmetry in E. now apply wrap_dict_not_task in E.
     + injection E as Ec E. subst c'. f_equal. cbn [no_reserved] in Ha, Hb.
       apply andb_true_iff in Ha, Hb. destruct Ha as [_ Ha], Hb as [_ Hb]. revert fs' Hb E.
       induction IH as [|[k x] l Hx Hl IHl]; intros [|[k' y] l'] Hb E; cbn [map] in E; try discriminate; [reflexivity|].
@@ -202,13 +226,16 @@ Proof.
       f_equal; [f_equal; [exact E0|now apply Hx]|now apply IHl].
 Qed.
 
-(* without the guard the statement is false: a string-keyed dict can spell a serialised task or enum *)
+(* the serialiser as it was before defect D9 was repaired (dicts never wrapped) is not injective: a string-keyed dict can spell
+   a serialised task or enum *)
 Definition mimic_task : value :=
   VDict [(k_is_task, VScal (SBool true)); (k_class, VScal (SStr (s2l "lv_universe.V2"%string)));
          (s2l "x"%string, VScal (SInt 1))].
 Definition real_task : value := VTask (s2l "lv_universe.V2"%string) [(s2l "x"%string, VScal (SInt 1))].
-Theorem ser_unguarded_refuted : exists a b, a <> b /\ ser a = ser b.
-Proof. exists mimic_task, real_task. split; [discriminate|reflexivity]. Qed.
+Theorem ser_unguarded_refuted : exists a b, a <> b /\ no_reserved a = true /\ no_reserved b = true /\ ser_plain a = ser_plain b.
+Proof. exists mimic_task, real_task. split; [discriminate|]. repeat split; reflexivity. Qed.
+Example wrapped_dict_differs : ser mimic_task <> ser real_task.
+Proof. discriminate. Qed.
 
 (* ------------------------------------------------------------------ C09: deserialisation inverts serialisation *)
 Lemma alookup_not_has_key {V} k (kvs : list (str * V)) : has_key k kvs = false -> alookup kvs k = None.
@@ -268,33 +295,44 @@ Qed.
 
 Theorem deser_ser e v : wf_env e v = true -> no_reserved v = true -> deser DRecursive e (ser v) = Some v.
 Proof.
+  unfold deser.
   induction v as [s|l IH|kvs IH|c fs IH] using value_ind'; intros Hw Hr.
-  - destruct s as [| | | | |c m]; try reflexivity. cbn [ser ser_scalar deser].
+  - destruct s as [| | | | |c m]; try reflexivity. cbn [ser ser_scalar deser_gen].
     change (flag [(k_is_enum, JBool true); (k_class, JStr c); (k_name, JStr m)] k_is_task) with false.
     change (flag [(k_is_enum, JBool true); (k_class, JStr c); (k_name, JStr m)] k_is_enum) with true.
     cbn [wf_env] in Hw. cbn. destruct (alookup (enum_classes e) c) as [ms|]; [|discriminate]. now rewrite Hw.
-  - cbn [ser deser]. rewrite map_map. cbn [wf_env no_reserved] in Hw, Hr. rewrite forallb_forall in Hw, Hr.
-    rewrite (opt_all_id (fun x => deser DRecursive e (ser x)) l); [reflexivity|].
+  - cbn [ser deser_gen]. rewrite map_map. cbn [wf_env no_reserved] in Hw, Hr. rewrite forallb_forall in Hw, Hr.
+    rewrite (opt_all_id (fun x => deser_gen DRecursive e false (ser x)) l); [reflexivity|].
     rewrite Forall_forall in *. intros x Hx. apply IH; auto.
-  - cbn [ser]. cbn [no_reserved] in Hr. apply andb_true_iff in Hr. destruct Hr as [Hr Hr3].
-    apply andb_true_iff in Hr. destruct Hr as [Hr1 Hr2]. apply negb_true_iff in Hr1, Hr2.
-    cbn [deser]. rewrite (flag_not_has_key k_is_task), (flag_not_has_key k_is_enum) by (now rewrite has_key_map).
-    rewrite map_map. cbn [fst snd wf_env] in *. rewrite forallb_forall in Hw, Hr3.
-    rewrite (opt_all_some_map _ (fun kv => kv)); [now rewrite map_id|].
-    rewrite Forall_forall in *. intros [k x] Hx. cbn [fst snd].
-    pose proof (IH (k, x) Hx (Hw (k, x) Hx) (Hr3 (k, x) Hx)) as Hi. cbn [snd] in Hi. now rewrite Hi.
+  - cbn [ser]. cbn [no_reserved wf_env] in Hr, Hw. rewrite forallb_forall in Hw, Hr.
+    set (j := map (fun kv => (fst kv, ser (snd kv))) kvs).
+    assert (Hitems : opt_all (map (fun kv => option_map (pair (fst kv)) (deser_gen DRecursive e false (snd kv))) j) = Some kvs).
+    { unfold j. rewrite map_map. cbn [fst snd]. rewrite (opt_all_some_map _ (fun kv => kv)); [now rewrite map_id|].
+      rewrite Forall_forall in *. intros [k x] Hx. cbn [fst snd].
+      pose proof (IH (k, x) Hx (Hw (k, x) Hx) (Hr (k, x) Hx)) as Hi. cbn [snd] in Hi. now rewrite Hi. }
+    destruct (wrap_dict_cases j) as [[M ->]|[M ->]].
+    + cbn [deser_gen]. unfold marked in M. apply orb_false_iff in M. destruct M as [M M3]. apply orb_false_iff in M. destruct M as [M1 M2].
+      rewrite M1, M2, M3, Hitems. reflexivity.
+    + set (W := [(k_is_dict, JBool true); (k_items, JObj j)]).
+      assert (F1 : flag W k_is_task = false) by reflexivity.
+      assert (F2 : flag W k_is_enum = false) by reflexivity.
+      assert (F3 : flag W k_is_dict = true) by reflexivity.
+      cbn [deser_gen]. fold W. rewrite F1, F2, F3. unfold W. cbn [map fst snd].
+      change (alookup [(k_is_dict, deser_gen DRecursive e true (JBool true)); (k_items, deser_gen DRecursive e true (JObj j))] k_items)
+        with (Some (deser_gen DRecursive e true (JObj j))).
+      cbn [deser_gen]. rewrite Hitems. reflexivity.
   - cbn [ser]. cbn [no_reserved] in Hr. apply andb_true_iff in Hr. destruct Hr as [Hr Hr3].
     apply andb_true_iff in Hr. destruct Hr as [Hr1 Hr2]. apply negb_true_iff in Hr1, Hr2.
     cbn [wf_env] in Hw. apply andb_true_iff in Hw. destruct Hw as [Hw1 Hw2].
     destruct (alookup (task_classes e) c) as [fnames|] eqn:Ec; [|discriminate].
     apply andb_true_iff in Hw1. destruct Hw1 as [Hf Hnd]. apply strs_eqb_eq in Hf. apply nodup_str_NoDup in Hnd.
     rewrite forallb_forall in Hw2, Hr3.
-    cbn [deser]. change (flag ((k_is_task, JBool true) :: (k_class, JStr c) :: map (fun kv => (fst kv, ser (snd kv))) fs) k_is_task) with true.
+    cbn [deser_gen]. change (flag ((k_is_task, JBool true) :: (k_class, JStr c) :: map (fun kv => (fst kv, ser (snd kv))) fs) k_is_task) with true.
     cbv iota. change (alookup ((k_is_task, JBool true) :: (k_class, JStr c) :: map (fun kv => (fst kv, ser (snd kv))) fs) k_class) with (Some (JStr c)).
     cbv iota. rewrite Ec. cbn [map fst snd filter]. rewrite str_eqb_refl. cbn [negb andb].
     change (str_eqb k_class k_is_task) with false. rewrite str_eqb_refl. cbn [negb andb].
     rewrite map_map. cbn [fst snd].
-    assert (Hdec : map (fun x => (fst x, deser DRecursive e (ser (snd x)))) fs = map (fun kv => (fst kv, Some (snd kv))) fs).
+    assert (Hdec : map (fun x => (fst x, deser_gen DRecursive e false (ser (snd x)))) fs = map (fun kv => (fst kv, Some (snd kv))) fs).
     { apply map_ext_in. intros [k x] Hx. cbn [fst snd]. rewrite Forall_forall in IH.
       pose proof (IH (k, x) Hx (Hw2 (k, x) Hx) (Hr3 (k, x) Hx)) as Hi. cbn [snd] in Hi. now rewrite Hi. }
     rewrite Hdec.
@@ -313,6 +351,11 @@ Proof.
       cbn [fst snd] in E. injection E as <- _. cbn [fst]. apply smem_In. rewrite <- Hf. apply in_map_iff. exists (k', x). auto. }
     rewrite Hall. rewrite <- Hf. rewrite lookup_all_fields by (rewrite Hf; exact Hnd). reflexivity.
 Qed.
+
+(* a dict that spells a serialised task reads back as that dict *)
+Example mimic_roundtrip :
+  deser DRecursive {| task_classes := [(s2l "lv_universe.V2"%string, [s2l "x"%string])]; enum_classes := [] |} (ser mimic_task) = Some mimic_task.
+Proof. reflexivity. Qed.
 
 (* the shallow variant is not an inverse: a task nested in a tuple comes back as a dict *)
 Theorem deser_shallow_refuted : exists e v, wf_env e v = true /\ no_reserved v = true /\ deser DShallow e (ser v) <> Some v.
